@@ -1,5 +1,6 @@
 import PynguinModel.Lemmas.Cdg
 import PynguinModel.Lemmas.CdgDeps
+import PynguinModel.Lemmas.CdgFilter
 /-!
 # C06 — Control-dependence graphs match the post-dominance definition
 
@@ -268,11 +269,61 @@ theorem filterDead_fixpoint (E : List Edge) (entry : Node) :
         omega
       exact filterDead_fixpoint E entry fuel _ (by omega)
 
-/-- The loop removes predecessor-less nodes only: an unreachable cycle survives (the property's
-"every block reachable from the entry" then rests on CPython never emitting one — the check
-verifies reachability on every real CFG). -/
-theorem filter_dead_cex :
-    filterDead [⟨0, 1, none⟩, ⟨2, 3, none⟩, ⟨3, 2, none⟩] 0 4 [0, 1, 2, 3] = [0, 1, 2, 3] := by decide
+/-- **The repaired `filter_dead_code_nodes` (loop + reachability pass), for every graph**: it succeeds
+exactly when the entry node is a node of the graph, … -/
+theorem filter_dead_defined_iff (E : List Edge) (entry : Node) (nodes : List Node) :
+    filterDeadFull E entry nodes = none ↔ entry ∉ nodes :=
+  filterDeadFull_eq_none_iff E entry nodes
+
+/-- … and then **exactly the nodes the entry reaches remain** (reachability in the graph `(nodes, E)`;
+edges of `E` with an endpoint outside `nodes` do not exist in a networkx graph and are ignored) —
+unreachable cycles and everything behind them included. -/
+theorem filter_dead_exact {E : List Edge} {entry : Node} {nodes r : List Node}
+    (h : filterDeadFull E entry nodes = some r) (n : Node) :
+    n ∈ r ↔ n ∈ nodes ∧ Reach (induced E nodes) entry n := by
+  have hentry : entry ∈ nodes := by
+    have hne : ¬ filterDeadFull E entry nodes = none := by simp [h]
+    exact Classical.not_not.1 (fun hc => hne ((filterDeadFull_eq_none_iff E entry nodes).2 hc))
+  rw [mem_filterDeadFull_iff h]
+  exact ⟨fun hr => ⟨reach_mem_nodes hentry hr, hr⟩, fun hr => hr.2⟩
+
+/-- For a well-formed graph (every edge joins two nodes) this is plain reachability along `E`. -/
+theorem filter_dead_exact_wf {E : List Edge} {entry : Node} {nodes r : List Node}
+    (hwf : ∀ e ∈ E, e.src ∈ nodes ∧ e.dst ∈ nodes)
+    (h : filterDeadFull E entry nodes = some r) (n : Node) : n ∈ r ↔ Reach E entry n := by
+  have := mem_filterDeadFull_iff h n
+  rwa [induced_eq_self hwf] at this
+
+/-- The property's clause *every block reachable from the entry*, in the graph that is left: each
+remaining node is reachable from the entry through remaining nodes only. -/
+theorem cfg_every_node_reachable {E : List Edge} {entry : Node} {nodes r : List Node}
+    (h : filterDeadFull E entry nodes = some r) (n : Node) (hn : n ∈ r) :
+    Reach (induced E r) entry n := by
+  have hr := (mem_filterDeadFull_iff h n).1 hn
+  clear hn
+  induction hr with
+  | refl => exact Reach.refl
+  | step hp he ih =>
+    exact Reach.step ih (mem_induced.2 ⟨(mem_induced.1 he).1, (mem_filterDeadFull_iff h _).2 hp,
+      (mem_filterDeadFull_iff h _).2 (Reach.step hp he)⟩)
+
+/-- The breadth-first closure used for `nx.descendants` is exact. -/
+theorem reach_exact (E : List Edge) (entry n : Node) : n ∈ reach E entry ↔ Reach E entry n :=
+  mem_reach_iff E entry n
+
+/-- Before the repair (/repo commit "loops that cannot be reached from the entry node are dead code …")
+the function was the loop alone, which removes predecessor-less nodes only: the unreachable cycle
+`2 ⇄ 3` survived it (DESIGN D22); the repaired function removes it. -/
+theorem filter_dead_legacy_cex :
+    filterDead [⟨0, 1, none⟩, ⟨2, 3, none⟩, ⟨3, 2, none⟩] 0 4 [0, 1, 2, 3] = [0, 1, 2, 3] ∧
+    filterDeadFull [⟨0, 1, none⟩, ⟨2, 3, none⟩, ⟨3, 2, none⟩] 0 [0, 1, 2, 3] = some [0, 1] := by decide
+
+/-- Non-vacuity: `try: return` / handler with a loop (`4 → 5 ⇄ 6 → 7`, not connected to the first block
+`2`), a dead block `8` feeding the live block `3`, entry `0`, exit `1`. -/
+example : filterDeadFull [⟨0, 2, none⟩, ⟨2, 3, none⟩, ⟨3, 1, none⟩, ⟨4, 5, none⟩, ⟨5, 6, some true⟩,
+    ⟨6, 5, none⟩, ⟨5, 7, some false⟩, ⟨7, 1, none⟩, ⟨8, 3, none⟩] 0 [2, 3, 4, 5, 6, 7, 8, 0, 1] =
+    some [2, 3, 0, 1] := by decide
+example : filterDeadFull [⟨2, 3, none⟩] 0 [2, 3] = none := by decide
 
 /-! ### Non-vacuity: the diamond `0 → {1,2} → 3 = exit` with its post-dominator tree -/
 
